@@ -18,6 +18,7 @@ def main(tier, seed, replay):
         k.must_find("MC_Vis_F14", mc_consts(impl="ImplF14", policy="white", kinds=("spawn", "setvis"), ops=5), inv)
         tr = k.validate_profile("vis_black", 150)
         k.validate_profile("vis_white", 150)
+        k.validate_profile("kf_f20", 1, known=("F20",))
     else:
         for pol in ("black", "white"):
             k.model_check(f"MC_Vis_{pol}", mc_consts(policy=pol, ops=4, **vis), inv, timeout=3000)
@@ -28,6 +29,7 @@ def main(tier, seed, replay):
         k.must_find("MC_Vis_F14", mc_consts(impl="ImplF14", policy="white", kinds=("spawn", "setvis"), ops=5), inv)
         tr = k.validate_profile("vis_black", 3000)
         k.validate_profile("vis_white", 3000)
+        k.validate_profile("kf_f20", 1, known=("F20",))
     k.selftest(tr)
     return k.finish(assumptions=[
         "the visible set of a tick is recomputed by the validator from the recorded ClientVisibility state; messages are decoded by the harness's own wire decoder",
